@@ -14,6 +14,7 @@ import (
 
 	"go.sia.tech/core/types"
 	"verifmc/chain"
+	"verifmc/spec"
 	"verifmc/vf"
 )
 
@@ -625,6 +626,13 @@ func (r *runner) contracts() {
 							u := useV2ProofWithTip(w, fce)
 							r.probe(w, "v2 proof only once the block at proof height is an ancestor", c0, int64(ph), u, false)
 						}
+						// a proof that is honest for ANOTHER block (every existing chain index): only the block at the proof
+						// height may seed the challenge, before and after the bound
+						for ih := uint64(0); ih < uint64(len(w.Store.CI)); ih++ {
+							if ih != ph {
+								r.probe(w, "v2 proof only against the chain index of the proof height", c0, int64(ph), useV2ProofAtIndex(w, fce, ih), false)
+							}
+						}
 						r.probe(w, "v2 expiration only after expiration height", c0, int64(eh), w.UseV2Expire(fce), h >= eh+1)
 						// renewal: the NEW contract's proof height rule
 						bc2 := w.NewBlockCtx()
@@ -656,9 +664,21 @@ func useV1ProofForce(w *chain.World, fce types.FileContractElement) (chain.Use, 
 }
 
 func useV2ProofWithTip(w *chain.World, fce types.V2FileContractElement) chain.Use {
-	ci := w.Store.CI[len(w.Store.CI)-1].Copy()
-	t := types.V2Transaction{FileContractResolutions: []types.V2FileContractResolution{{Parent: fce.Copy(), Resolution: &types.V2StorageProof{ProofIndex: ci}}}}
-	return chain.Use{Name: "v2proof-early", V2: &t, Resolves: true}
+	return useV2ProofAtIndex(w, fce, uint64(len(w.Store.CI)-1))
+}
+
+// useV2ProofAtIndex builds a storage proof that is HONEST for the chain index element of the given height (the leaf
+// the challenge derived from that block's id selects, with its Merkle path), whatever the contract's proof height is.
+func useV2ProofAtIndex(w *chain.World, fce types.V2FileContractElement, height uint64) chain.Use {
+	ci := w.Store.CI[height].Copy()
+	fc := fce.V2FileContract
+	sp := &types.V2StorageProof{ProofIndex: ci}
+	if fc.Filesize > 0 && fc.Filesize <= 1<<20 {
+		idx := w.CS.StorageProofLeafIndex(fc.Filesize, ci.ChainIndex.ID, fce.ID)
+		sp.Leaf, sp.Proof = spec.FileProof(spec.FileData(int(fc.Filesize), byte(fc.Filesize%251)), int(idx))
+	}
+	t := types.V2Transaction{FileContractResolutions: []types.V2FileContractResolution{{Parent: fce.Copy(), Resolution: sp}}}
+	return chain.Use{Name: "v2proof-other-index", V2: &t, Resolves: true}
 }
 
 func useRenewWithPH(w *chain.World, fce types.V2FileContractElement, f types.SiacoinElement, nph uint64) (chain.Use, bool) {
